@@ -97,6 +97,15 @@ func genGraph(r *core.Rand, race bool) *graphCase {
 	gc.G = r.IntRange(1, 6)
 	gc.T = []int{1, 5, 30}[r.Intn(3)]
 	nm := r.IntRange(2, 5)
+	// simulation-length series (decades of daily steps) on a small graph with heavy fan-in
+	long := r.Bool(0.08) || (race && r.Bool(0.25)) // C05's few graphs lean towards the order-sensitive shape
+	maxNodes := 4
+	if long {
+		gc.T = []int{4095, 4096, 5000, 8192, 10000}[r.Intn(5)]
+		gc.G = r.IntRange(2, 4)
+		nm = r.IntRange(2, 3)
+		maxNodes = 2
+	}
 	perm := r.Perm(len(owsimDestModels))
 	names := []string{}
 	for i := 0; i < nm; i++ {
@@ -104,6 +113,27 @@ func genGraph(r *core.Rand, race bool) *graphCase {
 	}
 	if r.Bool(0.3) {
 		names[0] = []string{"Storage", "RatingCurvePartition"}[r.Intn(2)] // table-parameter model, used as a source only
+	}
+	// model types whose name is a prefix of another type's name, and a selection that names only the longer one
+	clash := ""
+	if r.Bool(0.2) {
+		pair := [][2]string{{"Storage", "StorageRouting"}, {"DynamicSednetGully", "DynamicSednetGullyAlt"}, {"Storage", "StorageDissolvedDecay"}}[r.Intn(3)]
+		names[0], names[1] = pair[0], pair[1]
+		for i := 2; i < len(names); i++ {
+			if names[i] == pair[0] || names[i] == pair[1] {
+				names[i] = "Sum"
+			}
+		}
+		dedup := map[string]bool{}
+		var nn []string
+		for _, n := range names {
+			if !dedup[n] {
+				dedup[n] = true
+				nn = append(nn, n)
+			}
+		}
+		names = nn
+		clash = pair[1]
 	}
 	sort.Strings(names) // /META/models order is free; keep deterministic
 	anyInputs := false
@@ -113,8 +143,8 @@ func genGraph(r *core.Rand, race bool) *graphCase {
 		total := 0
 		table := len(desc.Dimensions) > 0
 		for g := 0; g < gc.G; g++ {
-			n := r.IntRange(0, 4)
-			if r.Bool(0.25) {
+			n := r.IntRange(0, maxNodes)
+			if r.Bool(0.25) && !(long && g < 2) {
 				n = 0 // empty batch
 			}
 			if table && g > 0 {
@@ -183,7 +213,11 @@ func genGraph(r *core.Rand, race bool) *graphCase {
 		}
 		l := gLink{gs, ms, r.Intn(src.count(gs)), r.Intn(src.nOut), gd, md, r.Intn(dst.count(gd)), r.Intn(dst.nIn)}
 		gc.Links = append(gc.Links, l)
-		if r.Bool(0.3) { // fan-in: another link into the same input
+		pFan := 0.3
+		if long {
+			pFan = 0.7
+		}
+		for extra := 0; extra < 5 && r.Bool(pFan); extra++ { // fan-in: more links into the same input
 			l2 := l
 			l2.SrcIdx = r.Intn(src.count(gs))
 			l2.SrcVar = r.Intn(src.nOut)
@@ -201,22 +235,27 @@ func genGraph(r *core.Rand, race bool) *graphCase {
 		}
 		return strings.Join(s, ",")
 	}
-	if r.Bool(0.25) {
+	clashFlag := ""
+	if clash != "" {
+		clashFlag = []string{"-outputs-for", "-no-outputs-for", "-inputs-for", "-no-inputs-for"}[r.Intn(4)]
+		gc.Flags = append(gc.Flags, clashFlag, clash)
+	}
+	if r.Bool(0.25) && clashFlag != "-outputs-for" {
 		if v := pickModels(); v != "" {
 			gc.Flags = append(gc.Flags, "-outputs-for", v)
 		}
 	}
-	if r.Bool(0.25) {
+	if r.Bool(0.25) && clashFlag != "-no-outputs-for" {
 		if v := pickModels(); v != "" {
 			gc.Flags = append(gc.Flags, "-no-outputs-for", v)
 		}
 	}
-	if r.Bool(0.25) {
+	if r.Bool(0.25) && clashFlag != "-inputs-for" {
 		if v := pickModels(); v != "" {
 			gc.Flags = append(gc.Flags, "-inputs-for", v)
 		}
 	}
-	if r.Bool(0.25) {
+	if r.Bool(0.25) && clashFlag != "-no-inputs-for" {
 		if v := pickModels(); v != "" {
 			gc.Flags = append(gc.Flags, "-no-inputs-for", v)
 		}
@@ -413,6 +452,9 @@ func owsimCase(c *core.Ctx, race bool) {
 	for _, n := range fanIn {
 		if n > 1 {
 			c.Tag("graph:fan-in")
+		}
+		if n > 2 && gc.T >= 4096 {
+			c.Tag("graph:long-series-fan-in>=3")
 		}
 	}
 	c.Count("graph_nodes", float64(nodes))
